@@ -216,15 +216,15 @@ func Walk(ctx context.Context, fileSystem fs.FS, prefix, delimiter, marker strin
 		// Common prefixes are a set, so should not have duplicates.
 		// These are abstractly a "directory", so need to include the
 		// delimiter at the end when we add to the map.
-		cprefNoDelim := prefix + before
 		cpref := prefix + before + delimiter
 		if cpref == marker {
 			pastMarker = true
 			return skipflag
 		}
 
-		if marker != "" && strings.HasPrefix(marker, cprefNoDelim) {
-			// skip common prefixes that are before the marker
+		if marker != "" && strings.HasPrefix(marker, cpref) {
+			// skip the common prefix that the marker lies in: it was
+			// listed when the listing got there
 			return skipflag
 		}
 
